@@ -376,13 +376,20 @@ def cast_job(args):
                 if d[0] == "enum":
                     iv = rng.choice(d[1])
                     pyv = target.shape()(iv) if hasattr(target.shape(), "__members__") else iv
+                elif d[0] == "q" and rng.random() < 0.35:
+                    # a plain int / bool through the shape's const(): the circuit stores n * 2**frac, not n (seeded change C05-r5-2)
+                    n = rng.choice([0, 1, 1, -1, 2, -2, 3, rng.randint(-6, 6)])
+                    iv = n << d[1]
+                    pyv = bool(n) if n in (0, 1) and rng.random() < 0.3 else n
+                    kind += ":int-written"
                 elif d[0] == "q":
                     iv = rng.randint(-(1 << sh.width), 1 << sh.width) if rng.random() < 0.2 else rand_in(sh, d)
                     pyv = Fraction(iv, 1 << d[1])
                 else:
                     iv = rng.randint(-(1 << (sh.width + 1)), 1 << (sh.width + 1))
                     pyv = iv
-                write = {"name": name, "kind": kind, "target": target, "pyv": pyv, "iv": iv, "lifted": cast_describe(pyv),
+                write = {"name": name, "kind": kind, "target": target, "pyv": pyv, "iv": iv,
+                         "lifted": cast_describe(Fraction(iv, 1 << d[1]) if d[0] == "q" else pyv),
                          "ser": ser_value(target, sigidx)}
             steps.append({"env": env, "write": write})
         ctxs = ser_ctx([u.shape() for u in under])
